@@ -33,7 +33,65 @@ type uuState struct {
 func (s *uuState) OnInt(c gotype.UnfoldCtx, i int64) error   { *s.to = i; c.Done(); return nil }
 func (s *uuState) OnUint(c gotype.UnfoldCtx, u uint64) error { *s.to = int64(u) + 1000000; c.Done(); return nil }
 
+// uuS keeps the string it is handed
+type uuS struct{ S string }
+
+// uuKV is filled by a stateful unfolder that handles an object and keeps its keys
+type uuKV struct {
+	Keys []string
+	Vals []int64
+}
+
+type uuKVState struct {
+	gotype.BaseUnfoldState
+	to *uuKV
+}
+
+func (s *uuKVState) OnObjectStart(c gotype.UnfoldCtx, l int, bt structform.BaseType) error {
+	return nil
+}
+func (s *uuKVState) OnKey(c gotype.UnfoldCtx, k string) error { s.to.Keys = append(s.to.Keys, k); return nil }
+func (s *uuKVState) OnInt(c gotype.UnfoldCtx, i int64) error   { s.to.Vals = append(s.to.Vals, i); return nil }
+func (s *uuKVState) OnUint(c gotype.UnfoldCtx, u uint64) error { s.to.Vals = append(s.to.Vals, int64(u)); return nil }
+func (s *uuKVState) OnObjectFinished(c gotype.UnfoldCtx) error  { c.Done(); return nil }
+
+// uuP is unfolded through a PROCESSING unfolder whose temporary cell has the target's own type
+type uuP struct {
+	Name  string
+	Quota int
+}
+
+// uuOuter is processed too, and its cell contains a uuP
+type uuOuter struct {
+	Tag string
+	In  uuP
+}
+
 var (
+	uuOptS  = gotype.Unfolders(func(to *uuS, s string) error { to.S = s; return nil })
+	uuOptKV = gotype.Unfolders(func(x *uuKV) gotype.UnfoldState { return &uuKVState{to: x} })
+	uuOptP  = gotype.Unfolders(func(to *uuP) (interface{}, func(*uuP, interface{}) error) {
+		cell := &uuP{}
+		return cell, func(to *uuP, c interface{}) error {
+			x := c.(*uuP)
+			to.Name, to.Quota = strings.ToUpper(x.Name), x.Quota*1024
+			return nil
+		}
+	})
+	uuOptO = gotype.Unfolders(func(to *uuOuter) (interface{}, func(*uuOuter, interface{}) error) {
+		cell := &struct {
+			Tag string
+			In  uuP
+		}{}
+		return cell, func(to *uuOuter, c interface{}) error {
+			x := c.(*struct {
+				Tag string
+				In  uuP
+			})
+			to.Tag, to.In = "<"+x.Tag+">", x.In
+			return nil
+		}
+	})
 	uuOptT = gotype.Unfolders(uuTfn)
 	uuOptI = gotype.Unfolders(func(x *uuI) gotype.UnfoldState { return &uuState{to: &x.V} })
 )
@@ -90,15 +148,128 @@ func userunfRun(c int, seed uint64) string {
 		case 10:
 			target, doc = new([]*uuI), []int{n2}
 			want = []*uuI{{int64(n2)}}
+		case 11:
+			// exported fields whose first letter is upper case but not A-Z
+			target, doc = new(struct {
+				Ärger int
+				Über  string
+			}), map[string]interface{}{"ärger": n1, "über": s1}
+			want = struct {
+				Ärger int
+				Über  string
+			}{n1, s1}
+		case 12, 13, 14, 15, 16:
+			// handled below: event streams delivered by reference, processing unfolders, histories
 		}
-		u, err := gotype.NewUnfolder(target, uuOptT, uuOptI)
+		u, err := gotype.NewUnfolder(nil, uuOptT, uuOptI, uuOptS, uuOptKV, uuOptP, uuOptO)
 		if err != nil {
 			res = "U setuperr"
 			return
 		}
-		if err := gotype.Fold(doc, u); err != nil {
-			res = "U err"
-			return
+		refs := func(evs ...event) error {
+			_, err := play(structform.EnsureExtVisitor(u), evs)
+			return err
+		}
+		kref := func(k string) event { return event{kind: evKeyRef, s: []byte(k)} }
+		sref := func(s string) event { return event{kind: evStrRef, s: []byte(s)} }
+		num := func(i int64) event { return event{kind: evNum, sc: scI(kInt64, i)} }
+		ob, oe := event{kind: evObjStart, n: -1}, event{kind: evObjEnd}
+		switch c {
+		case 12:
+			// strings delivered by reference (the buffer is overwritten after each call) to a user
+			// function that keeps them
+			t := new(struct{ A, B uuS })
+			target, want = t, struct{ A, B uuS }{uuS{"first " + s1}, uuS{"other " + s2}}
+			if err := u.SetTarget(t); err != nil {
+				res = "U setuperr"
+				return
+			}
+			if err := refs(ob, kref("a"), sref("first "+s1), kref("b"), sref("other "+s2), oe); err != nil {
+				res = "U err"
+				return
+			}
+			doc = nil
+		case 13:
+			// keys delivered by reference to a stateful unfolder that keeps them
+			t := new(struct{ X, Y uuKV })
+			target = t
+			want = struct{ X, Y uuKV }{uuKV{[]string{"alpha", "beta"}, []int64{1, 2}}, uuKV{[]string{"gamma"}, []int64{3}}}
+			if err := u.SetTarget(t); err != nil {
+				res = "U setuperr"
+				return
+			}
+			if err := refs(ob, kref("x"), ob, kref("alpha"), num(1), kref("beta"), num(2), oe, kref("y"), ob, kref("gamma"), num(3), oe, oe); err != nil {
+				res = "U err"
+				return
+			}
+			doc = nil
+		case 14:
+			// a processing unfolder, several values through one Unfolder
+			t := new([]uuP)
+			target, want = t, []uuP{{"AB", 2048}, {"CD", 3072}, {strings.ToUpper(s1), 1024}}
+			if err := u.SetTarget(t); err != nil {
+				res = "U setuperr"
+				return
+			}
+			doc = []map[string]interface{}{{"name": "ab", "quota": 2}, {"name": "cd", "quota": 3}, {"name": s1, "quota": 1}}
+			if err := gotype.Fold(doc, u); err != nil {
+				res = "U err"
+				return
+			}
+			doc = nil
+		case 15:
+			// the same Unfolder used for the same processed type again (and as a pointer field)
+			for i := 0; i < 3; i++ {
+				t := new(uuP)
+				if err := u.SetTarget(t); err != nil {
+					res = "U setuperr"
+					return
+				}
+				if err := gotype.Fold(map[string]interface{}{"name": "probe", "quota": 7}, u); err != nil {
+					res = "U err"
+					return
+				}
+				target, want = t, uuP{"PROBE", 7168}
+				if *t != (uuP{"PROBE", 7168}) {
+					break
+				}
+			}
+			if reflect.DeepEqual(reflect.ValueOf(target).Elem().Interface(), want) {
+				t := new(struct{ P *uuP })
+				if err := u.SetTarget(t); err != nil {
+					res = "U setuperr"
+					return
+				}
+				if err := gotype.Fold(map[string]interface{}{"p": map[string]interface{}{"name": "q", "quota": 1}}, u); err != nil {
+					res = "U err"
+					return
+				}
+				target, want = t, struct{ P *uuP }{&uuP{"Q", 1024}}
+			}
+			doc = nil
+		case 16:
+			// nested processing unfolders, twice through one Unfolder
+			t := new([]uuOuter)
+			target, want = t, []uuOuter{{"<a>", uuP{"X", 1024}}, {"<b>", uuP{"Y", 2048}}}
+			if err := u.SetTarget(t); err != nil {
+				res = "U setuperr"
+				return
+			}
+			doc = []map[string]interface{}{{"tag": "a", "in": map[string]interface{}{"name": "x", "quota": 1}}, {"tag": "b", "in": map[string]interface{}{"name": "y", "quota": 2}}}
+			if err := gotype.Fold(doc, u); err != nil {
+				res = "U err"
+				return
+			}
+			doc = nil
+		default:
+			if err := u.SetTarget(target); err != nil {
+				res = "U setuperr"
+				return
+			}
+			if err := gotype.Fold(doc, u); err != nil {
+				res = "U err"
+				return
+			}
 		}
 		got := reflect.ValueOf(target).Elem().Interface()
 		if !reflect.DeepEqual(got, want) {
@@ -133,7 +304,7 @@ func derefAll(v interface{}) interface{} {
 	return v
 }
 
-const nUserunfCases = 11
+const nUserunfCases = 17
 
 func userunfCase(r *rng) string {
 	c := r.n(nUserunfCases)
